@@ -84,10 +84,12 @@ def run_property(pid: str, tier: str, seed: int, explain: bool = False) -> int:
             if use.only is not None:
                 findings = [f for f in findings if use.only(f)]
                 obligations = [o for o in obligations if use.only_ob(o)] if use.only_ob else obligations
-            if len(result.obligations) < result.floor:
+            # vacuity guard: the floors were set from the instance counts confirmed by hand; half of that is
+            # still far from "matched nothing" and leaves room for refactorings that merge or hoist sites
+            if len(result.obligations) < max(1, result.floor // 2):
                 raise AnalysisError(
                     f"rule {result.rule} matched {len(result.obligations)} instances, "
-                    f"fewer than the confirmed floor {result.floor} (vacuity guard)"
+                    f"fewer than half of the confirmed floor {result.floor} (vacuity guard)"
                 )
             n_ob = len(obligations)
             n_ok = sum(1 for o in obligations if o["ok"])
